@@ -34,10 +34,10 @@ class Ctx:
     def run_impl(self, cases, variant='plain', timeout_case=10, flexgen=False):
         return vlib.run_cases(self.impl_exe(variant, flexgen), cases, timeout_case=timeout_case)
 
-    def run_model(self, cases):
+    def run_model(self, cases, timeout_case=60):
         if self.model is None:
             return None
-        return vlib.run_cases(self.model, cases, timeout_case=60)
+        return vlib.run_cases(self.model, cases, timeout_case=timeout_case)
 
 
 class BuildError(Exception):
